@@ -12,6 +12,7 @@ package interp
 // Magnitudes of more digits fall back to the opaque string.
 
 import (
+	"fmt"
 	"go/types"
 
 	"verif/engine/internal/term"
@@ -96,4 +97,19 @@ func (in *Interp) fmtDecimal(x *term.Term, t types.Type) (Str, bool) {
 		out = append(out, term.Add(d8, term.BVC(8, '0')))
 	}
 	return Str{out}, true
+}
+
+// fmtPointer: %v of a pointer prints its address ("0xc000012345"). Under the
+// same opt-in a non-nil pointer renders as one fixed representative address
+// derived from the pointee's identity - an under-approximation (real addresses
+// vary from run to run) that is only good for exposing code that sends an
+// address where a value was meant; a nil pointer prints "<nil>".
+func (in *Interp) fmtPointer(p Ptr) (Str, bool) {
+	if !in.fmtDecimalEnabled() {
+		return Str{}, false
+	}
+	if p.C == nil {
+		return StrOf("<nil>"), true
+	}
+	return StrOf(fmt.Sprintf("0xc000%06x", uint64(p.C.ID)&0xffffff)), true
 }
